@@ -203,4 +203,97 @@ theorem pay_transcript_binds (cd : Codecs F G1 G2) (hcd : cd.Lawful) (pm pm' : P
     (transcript_bytes_inj cd hcd _ _
       (payTranscript_shape pm pm' close close' pub pub' p p' ctx ctx' h1 h2 h3 h4 h5 h6 h7 h8) hb)
 
+/-! ### binding under every layout (order of the `.with(…)` calls) -/
+
+theorem getD_eq_of_layout_eq (L : List Nat) (t t' : Transcript F G1 G2)
+    (h : t.layout L = t'.layout L) (i : Nat) (hi : i ∈ L) :
+    t.getD i (.bytes []) = t'.getD i (.bytes []) := by
+  unfold Transcript.layout at h
+  induction L with
+  | nil => cases hi
+  | cons a L ih =>
+    simp only [List.map_cons, List.cons.injEq] at h
+    rcases List.mem_cons.mp hi with rfl | hm
+    · exact h.1
+    · exact ih h.2 hm
+
+/-- A layout that feeds every item is injective on transcripts of that many items. -/
+theorem layout_inj (L : List Nat) (n : Nat) (hc : layoutCovers L n = true) (t t' : Transcript F G1 G2)
+    (hl : t.length = n) (hl' : t'.length = n) (h : t.layout L = t'.layout L) : t = t' := by
+  unfold layoutCovers at hc
+  simp only [Bool.and_eq_true, List.all_eq_true, List.mem_range, List.contains_iff_mem] at hc
+  apply List.ext_getElem (by rw [hl, hl'])
+  intro i h1 h2
+  have hi : i ∈ L := by simpa using hc.1 i (by omega)
+  have := getD_eq_of_layout_eq L t t' h i hi
+  simpa [List.getD_eq_getElem?_getD, List.getElem?_eq_getElem h1, List.getElem?_eq_getElem h2] using this
+
+theorem layout_shape (L : List Nat) (t t' : Transcript F G1 G2)
+    (hs : t.map Atom.shape = t'.map Atom.shape) :
+    (t.layout L).map Atom.shape = (t'.layout L).map Atom.shape := by
+  unfold Transcript.layout
+  rw [List.map_map, List.map_map]
+  apply List.map_congr_left
+  intro i _
+  have hlen : t.length = t'.length := by simpa using congrArg List.length hs
+  simp only [Function.comp, List.getD_eq_getElem?_getD]
+  by_cases hi : i < t.length
+  · have hi' : i < t'.length := hlen ▸ hi
+    rw [List.getElem?_eq_getElem hi, List.getElem?_eq_getElem hi']
+    simp only [Option.getD_some]
+    have := congrArg (fun l => l[i]?) hs
+    simpa [List.getElem?_map, List.getElem?_eq_getElem hi, List.getElem?_eq_getElem hi'] using this
+  · have hi' : ¬ i < t'.length := hlen ▸ hi
+    rw [List.getElem?_eq_none (by omega), List.getElem?_eq_none (by omega)]
+
+/-- **Establish transcript, any layout.**  Whatever order the items are hashed in — provided every
+item is hashed (`layoutCovers`, evaluated by the driver on the layout extracted from the
+implementation's recorded bytes on every run) — equal hashed byte strings determine the key, the
+public values, the context and every non-response field of the proof. -/
+theorem establish_transcript_binds_layout (cd : Codecs F G1 G2) (hcd : cd.Lawful) (L : List Nat)
+    (pk pk' : PubKey G1 G2) (close close' : F) (pub pub' : EstPub F) (p p' : EstProof F G1) (ctx ctx' : List UInt8)
+    (h1 : pk.y1s.length = pk'.y1s.length) (h2 : pk.y2s.length = pk'.y2s.length)
+    (h3 : ctx.length = ctx'.length)
+    (hc : layoutCovers L (estTranscript pk close pub p ctx).length = true)
+    (hb : ((estTranscript pk close pub p ctx).layout L).bytes cd = ((estTranscript pk' close' pub' p' ctx').layout L).bytes cd) :
+    pk = pk' ∧ close = close' ∧ pub = pub' ∧ ctx = ctx' ∧
+    p.st.C = p'.st.C ∧ p.st.T = p'.st.T ∧ p.cl.C = p'.cl.C ∧ p.cl.T = p'.cl.T ∧
+    p.kCid = p'.kCid ∧ p.kClose = p'.kClose ∧ p.kCb = p'.kCb ∧ p.kMb = p'.kMb := by
+  have hs := estTranscript_shape pk pk' close close' pub pub' p p' ctx ctx' h1 h2 h3
+  have hlen : (estTranscript pk' close' pub' p' ctx').length = (estTranscript pk close pub p ctx).length := by
+    simpa using (congrArg List.length hs).symm
+  have hL := transcript_bytes_inj cd hcd _ _ (layout_shape L _ _ hs) hb
+  have := layout_inj L _ hc _ _ rfl hlen hL
+  exact estTranscript_inj pk pk' close close' pub pub' p p' ctx ctx' h1 h2 this
+
+/-- **Pay transcript, any layout.** -/
+theorem pay_transcript_binds_layout (cd : Codecs F G1 G2) (hcd : cd.Lawful) (L : List Nat) (pm pm' : PayParams G1 G2)
+    (close close' : F) (pub pub' : PayPub F) (p p' : PayProofM F G1 G2) (ctx ctx' : List UInt8)
+    (h1 : pm.pk.y1s.length = pm'.pk.y1s.length) (h2 : pm.pk.y2s.length = pm'.pk.y2s.length)
+    (h3 : pm.rp.sigs.length = pm'.rp.sigs.length) (h4 : pm.rp.pk.y1s.length = pm'.rp.pk.y1s.length)
+    (h5 : pm.rp.pk.y2s.length = pm'.rp.pk.y2s.length)
+    (h6 : p.cbR.length = p'.cbR.length) (h7 : p.mbR.length = p'.mbR.length) (h8 : ctx.length = ctx'.length)
+    (hc : layoutCovers L (payTranscript pm close pub p ctx).length = true)
+    (hb : ((payTranscript pm close pub p ctx).layout L).bytes cd = ((payTranscript pm' close' pub' p' ctx').layout L).bytes cd) :
+    pm.pk = pm'.pk ∧ pm.rp = pm'.rp ∧ pub.nonce = pub'.nonce ∧ close = close' ∧ ctx = ctx' ∧
+    p.rl.C = p'.rl.C ∧ p.rl.T = p'.rl.T ∧ p.st.C = p'.st.C ∧ p.st.T = p'.st.T ∧
+    p.cl.C = p'.cl.C ∧ p.cl.T = p'.cl.T ∧ p.tok.first = p'.tok.first ∧
+    p.cbR.map SProof.first = p'.cbR.map SProof.first ∧
+    p.mbR.map SProof.first = p'.mbR.map SProof.first ∧
+    p.kNonce = p'.kNonce ∧ p.kClose = p'.kClose := by
+  have hs := payTranscript_shape pm pm' close close' pub pub' p p' ctx ctx' h1 h2 h3 h4 h5 h6 h7 h8
+  have hlen : (payTranscript pm' close' pub' p' ctx').length = (payTranscript pm close pub p ctx).length := by
+    simpa using (congrArg List.length hs).symm
+  have hL := transcript_bytes_inj cd hcd _ _ (layout_shape L _ _ hs) hb
+  have := layout_inj L _ hc _ _ rfl hlen hL
+  exact pay_atoms_bind pm pm' close close' pub pub' p p' ctx ctx' h1 h2 h3 h4 h5 h6 h7 this
+
+/-- the identity layout is the model's default order -/
+theorem layout_range (t : Transcript F G1 G2) : t.layout (List.range t.length) = t := by
+  unfold Transcript.layout
+  apply List.ext_getElem (by simp)
+  intro i h1 h2
+  simp only [List.length_map, List.length_range] at h1
+  simp [List.getD_eq_getElem?_getD, List.getElem?_eq_getElem h1]
+
 end ZkVerif.C12
